@@ -119,6 +119,61 @@ def raw_coordinate_compare(prog, fn, call, slots=2):
     fills = [c for c in pr.calls(callee['body']) if c.get('name') == 'read_big_endian' and pr.canon(c['this']) == obj]
     if not fills or 'BigInt<' not in (prog.callee(fills[0], callee) or {}).get('qn', ''):
         return (False, 'the value compared with q is not the raw big-endian coordinate')
+    # every coordinate slot must be read: the offsets handed to read_big_endian over the helper's loop cover 0, 48, ..., 48 (slots - 1)
+    size_arg = None
+    for p_, a_ in zip(callee.get('params', []), call.get('args', [])):
+        if (p_.get('t') or {}).get('k') == 'int' and 'cv' in strip(a_):
+            size_arg = (p_['id'], int(strip(a_)['cv']))
+    offs = None
+    for lp in [x for x in walk(callee['body']) if x.get('k') == 'for']:
+        if not any(y is fills[0] for y in walk(lp.get('body') or {})):
+            continue
+        init, cnd, inc = lp.get('init'), strip(lp.get('c') or {}), strip(lp.get('inc') or {})
+        if not (init and init.get('k') == 'decl' and init['vars'] and 'cv' in strip(init['vars'][0].get('init') or {})):
+            break
+        iv = init['vars'][0]['id']
+        start = int(strip(init['vars'][0]['init'])['cv'])
+        step = None
+        if inc.get('k') == 'un' and inc.get('op') == '++' and strip(inc['e']).get('id') == iv:
+            step = 1
+        elif inc.get('k') == 'assign' and inc.get('op') == '+=' and strip(inc['lhs']).get('id') == iv and 'cv' in strip(inc['rhs']):
+            step = int(strip(inc['rhs'])['cv'])
+        bound = None
+        if cnd.get('k') == 'bin' and cnd.get('op') in ('!=', '<'):
+            r_ = strip(cnd['rhs'])
+            while isinstance(r_, dict) and r_.get('k') in ('cast', 'load'):
+                r_ = strip(r_['e'])
+            if 'cv' in r_:
+                bound = int(r_['cv'])
+            elif r_.get('k') == 'ref' and size_arg and r_.get('id') == size_arg[0]:
+                bound = size_arg[1]
+        # the byte offset of the read in terms of the induction variable: &data[i] or &data[i * 48]
+        arg0 = strip(fills[0]['args'][0]) if fills[0].get('args') else {}
+        scale = None
+        for x in walk(arg0):
+            if x.get('k') == 'index':
+                ix = strip(x['idx'])
+                while isinstance(ix, dict) and ix.get('k') in ('cast', 'load'):
+                    ix = strip(ix['e'])
+                if ix.get('k') == 'ref' and ix.get('id') == iv:
+                    scale = 1
+                elif ix.get('k') == 'bin' and ix.get('op') == '*':
+                    l_, r2 = strip(ix['lhs']), strip(ix['rhs'])
+                    for (u_, v_) in ((l_, r2), (r2, l_)):
+                        while isinstance(u_, dict) and u_.get('k') in ('cast', 'load'):
+                            u_ = strip(u_['e'])
+                        if isinstance(u_, dict) and u_.get('k') == 'ref' and u_.get('id') == iv and 'cv' in v_:
+                            scale = int(v_['cv'])
+        if step and bound is not None and scale and step > 0:
+            offs = set(scale * i_ for i_ in range(start, bound, step))
+        break
+    if offs is None:
+        raise bm.AnalysisBroken('%s: cannot establish which coordinate slots %s compares with q (loop not of the form `for (i = c; i != n; i += k) read(&data[i])`)'
+                                % (fn['qn'], callee['qn']))
+    missing = [48 * s_ for s_ in range(slots) if 48 * s_ not in offs]
+    if missing:
+        return (False, 'the helper reads the coordinates at byte offsets %s only: the %d-byte slot(s) at offset(s) %s are never compared with q nor '
+                       'checked for stray bits' % (sorted(offs), 48, missing))
     g = CFG(callee)
     rej = False
     for nd in g.cond_nodes():
